@@ -6,7 +6,7 @@ REQUIRED = ["CifModel.C02_text_protocol", "CifModel.C02_fold_line_progress", "Ci
             "CifModel.C02_analysis_facts", "CifModel.C02_write_char_text",
             "CifModel.C02_value_presented", "CifModel.C02_value_roundtrip", "CifModel.C02_unquoted_stays_unquoted",
             "CifModel.C02_total", "CifModel.C02_total_no_tables", "CifModel.C02_line_bound",
-            "CifModel.C02_bare_value", "CifModel.C02_parse_value_roundtrip"]
+            "CifModel.C02_bare_value", "CifModel.C02_parse_value_roundtrip", "CifModel.C02_parse_item_roundtrip"]
 GEN = ["WriterConsts", "ErrCodes"]
 FAMILIES = ["decode", "writeval", "write"]
 TRUSTED_BASE = [
